@@ -2,6 +2,7 @@ import OxiVerif.Base.Driver
 import OxiVerif.Model.C14
 import OxiVerif.Model.C14Spec
 import OxiVerif.Model.C15
+import OxiVerif.Model.C15Meta
 /-!
 Driver for C15.  Request / answer syntax: see `harness/src/bin/c15.rs`.
 MODEL  = `E:` the reported elements with `parent_heading`/`heading_path` RE-COMPUTED by the model's
@@ -111,12 +112,18 @@ def typeName : Kind → String
   | .footer => "footer" | .listItem => "list_item" | .image => "image" | .codeBlock => "code_block"
   | .keyValue => "key_value"
 
-def showRag (c : RagChunk) (sha8 : String) : String :=
+def bit (b : Bool) : String := if b then "1" else "0"
+
+def showMeta (m : ChunkMeta) : String :=
+  let pages := if m.regionPages.isEmpty then "_" else "-".intercalate (m.regionPages.map toString)
+  s!"{bit m.flags.hasTable}{bit m.flags.hasList}{bit m.flags.hasCode}{bit m.flags.headingOnly}.{m.charCount}.{m.wordCount}.{m.sentenceCount}.{bit m.aggr.bold}{bit m.aggr.italic}.{hexOfOptStr m.aggr.dominantFont}.{pages}.{m.nBoxes}"
+
+def showRag (c : RagChunk) (sha8 : String) (metaStr : String) : String :=
   let hp := if c.headingPath.isEmpty then "." else "/".intercalate (c.headingPath.map hexOfStr)
   let types := if c.types.isEmpty then "." else ".".intercalate (c.types.map typeName)
   let span := match c.pageSpan with | none => "~" | some (a, b) => s!"{a}-{b}"
   let ov := if c.oversized then "1" else "0"
-  s!"{c.index}!{hexOfStr c.text}!{hexOfStr c.fullText}!{showNats c.pages}!{types}!{hexOfOptStr c.heading}!{c.tokenEstimate}!{ov}!{hp}!{hexOfStr c.chunkId}!{hexOfOptStr c.prev}!{hexOfOptStr c.next}!{span}!{sha8}"
+  s!"{c.index}!{hexOfStr c.text}!{hexOfStr c.fullText}!{showNats c.pages}!{types}!{hexOfOptStr c.heading}!{c.tokenEstimate}!{ov}!{hp}!{hexOfStr c.chunkId}!{hexOfOptStr c.prev}!{hexOfOptStr c.next}!{span}!{sha8}!{metaStr}"
 
 /-- an implementation chunk as reported -/
 structure IRag where
@@ -138,7 +145,7 @@ def parseNats (s : String) : Option (List Nat) :=
 
 def parseIRag (s : String) : Option IRag :=
   match s.splitOn "!" with
-  | [idx, tx, ftx, pages, _types, h, te, ov, hp, cid, prev, next, _span, sha8] => do
+  | [idx, tx, ftx, pages, _types, h, te, ov, hp, cid, prev, next, _span, sha8, _meta] => do
     pure { index := ← idx.toNat?, text := ← strOfHex? tx, fullText := ← strOfHex? ftx,
            pages := ← parseNats pages, heading := ← optStrOfHex? h, tokenEstimate := ← te.toNat?,
            oversized := ov == "1",
@@ -282,7 +289,10 @@ def handle (req impl : String) : String × String :=
             { rc with chunkId := contentChunkId (fun _ => sha.toList) docHash rc.index rc.fullText }
           let rcs := linkChunks rcs
           let cStr := if rcs.isEmpty then "."
-            else "#".intercalate ((rcs.zip (List.range rcs.length)).map fun (rc, i) => showRag rc (shas.getD i "?"))
+            else
+              let metas := (chunk cfg wordProxy els).map fun c => showMeta (chunkMeta c)
+              "#".intercalate ((rcs.zip (List.range rcs.length)).map fun (rc, i) =>
+                showRag rc (shas.getD i "?") (metas.getD i "?"))
           let eStr := if els'.isEmpty then "." else ";".intercalate (els'.map showElem)
           (s!"E:{eStr}|Z:{z}|C:{cStr}|X:same", decideOracle max docHash items ics x)
         | _, _ => ("unparsable-impl", "fail:unparsable-impl-answer")
